@@ -19,7 +19,7 @@ import sys
 sys.path.insert(0, os.path.dirname(os.path.abspath(__file__)))
 import codeclib as K  # noqa: E402
 from codeclib import hlib  # noqa: E402
-from c01 import js, unjs  # noqa: E402
+from c01 import js, unjs, refill_for  # noqa: E402
 
 PROP = "C02"
 
@@ -54,6 +54,20 @@ def oracle_decode(res, s, v, data: bytes, start: int, tail: bytes, ref_val=None,
         res.violate("reencode-not-canonical", "re-encoding the decoded value is not the canonical encoding", case, canon.hex()[:200], re.hex()[:200])
     if canon_hex is not None and canon_hex != "ok " + hlib.hexs(re):
         res.violate("reencode-not-canonical", "re-encoding differs from Spec.E5.encode (Lean, via the driver)", case, canon_hex[:200], re.hex()[:200])
+    # the same bytes into an object that already holds another value of the structure (List.decode reuses its field objects)
+    import zlib
+    held = refill_for(hlib.Rng(zlib.adler32(data) ^ start), s, want)
+    try:
+        used = K.build_var(s, held)
+        pos2 = used.decode(data, start)
+        got2 = K.show_obj(used)
+    except Exception as exc:  # noqa: BLE001
+        res.violate("reuse-decode-raises", f"decoding a valid encoding into an object already holding a value raised {type(exc).__name__}: {exc}",
+                    dict(case, held=js(held)))
+        return
+    if got2 != want_s or pos2 != end:
+        res.violate("reuse-stale-value", "decoding a valid encoding into an object that already holds a value does not leave the decoded value",
+                    dict(case, held=js(held)), want_s[:200], got2[:200])
 
 
 def replay_case(res, case):
